@@ -5,17 +5,24 @@
    Reading guide.  [error_details] / [error_detail] are tonic-types' ErrorDetails / ErrorDetail;
    [with_error_details_c], [with_error_details_vec_c], [check_error_details_c],
    [get_error_details_c], [check_error_details_vec_c], [get_error_details_vec_c],
-   [get_details_c k] model the functions of StatusExt with the protobuf codec of
-   Model/ProtoWire.v (field tags regenerated from the prost attributes); [to_header_map] /
+   [get_details_c k] model the functions of StatusExt.  The protobuf codec underneath is the
+   table-driven one of Model/ProtoWire.v ([enc_g] / [dec_g]: what prost-derive generates from a
+   table of (field name, tag, kind)), instantiated with the tables that rs2v regenerates from the
+   `#[prost(..)]` attributes of google_rpc.rs and prost-types on every run; [to_header_map] /
    [from_header_map] are C04's model of Status::add_header / Status::from_header_map.
+   These are the functions the correspondence run evaluates ([obs_set], [obs_vec], [obs_hostile],
+   [obs_built] are observables of exactly them, [obs_decode_spec]).
    A result is [Ok _], [Err], [Panic] (an unwrap / expect / debug_assert / overflow site was
    reached) or [Fuel] (model artefact); [good r] says r is Ok or Err.
    [detail_ok d]: the strings of d are UTF-8 byte strings (they are Rust Strings), the keys of an
    ErrorInfo metadata map are distinct (it is a HashMap; the list order is the map's iteration
    order, any order), a RetryInfo delay has less than 2^63 seconds and less than 10^9
    nanoseconds - this includes the whole protobuf range [c20_protobuf_range].
-   [fits_c code msg ds]: the encoded google.rpc.Status is at most usize::MAX bytes long. *)
-From Verif Require Import Lib.Bytes Lib.Utf8 Lib.HeaderMap.
+   [fits_c code msg ds]: the encoded google.rpc.Status is at most usize::MAX bytes long.
+   [something_attached code msg ds]: the code is not OK, or there is a message, or a detail; the
+   alternative premise "the user metadata has no grpc-status-details-bin entry of its own" is only
+   needed when nothing at all is attached ([c20_own_details_entry_travels] says what happens then). *)
+From Verif Require Import Lib.Bytes Lib.Base64 Lib.Utf8 Lib.HeaderMap.
 From Verif Require Import Gen.StatusTables Gen.RichErrorTables Model.Status Model.ProtoWire Model.RichError.
 From Verif Require Import Proofs.Status Proofs.ProtoWire Proofs.RichError.
 Open Scope N_scope.
@@ -27,7 +34,7 @@ Open Scope N_scope.
 Theorem c20_details_set_roundtrip : forall code message ed md,
   is_code code = true -> utf8_valid message = true -> bytes_ok message = true ->
   ed_ok ed -> fits_c code message (pushed ed) ->
-  hm_get_all md hdr_grpc_status_details = [] ->
+  hm_get_all md hdr_grpc_status_details = [] \/ something_attached code message (pushed ed) ->
   exists st m st',
     with_error_details_c code message ed md = Ok st /\
     to_header_map st = Some m /\ from_header_map m = Some st' /\
@@ -43,7 +50,7 @@ Proof. exact details_set_roundtrip. Qed.
 Theorem c20_details_vec_roundtrip : forall code message ds md,
   is_code code = true -> utf8_valid message = true -> bytes_ok message = true ->
   Forall detail_ok ds -> fits_c code message ds ->
-  hm_get_all md hdr_grpc_status_details = [] ->
+  hm_get_all md hdr_grpc_status_details = [] \/ something_attached code message ds ->
   exists st m st',
     with_error_details_vec_c code message ds md = Ok st /\
     to_header_map st = Some m /\ from_header_map m = Some st' /\
@@ -57,7 +64,7 @@ Proof. exact details_vec_roundtrip. Qed.
 Theorem c20_embedded_status_matches_outer : forall code message ds md,
   is_code code = true -> utf8_valid message = true -> bytes_ok message = true ->
   Forall detail_ok ds -> fits_c code message ds ->
-  hm_get_all md hdr_grpc_status_details = [] ->
+  hm_get_all md hdr_grpc_status_details = [] \/ something_attached code message ds ->
   exists st m st' ps,
     with_error_details_vec_c code message ds md = Ok st /\
     to_header_map st = Some m /\ from_header_map m = Some st' /\
@@ -68,21 +75,49 @@ Proof. exact embedded_status_matches_outer. Qed.
 
 (* ---- the user metadata ---------------------------------------------------------------------- *)
 (* what is given to with_error_details[_vec]_and_metadata stays on the status and, after the header
-   encoding, arrives per name with its values in order - except the names gRPC reserves *)
+   encoding, arrives per name with its values in order - except the names gRPC reserves and the
+   name of the details header itself (an entry of that name is replaced by the attached details) *)
 Theorem c20_metadata_kept : forall code message ds md,
   is_code code = true -> utf8_valid message = true -> bytes_ok message = true ->
   Forall detail_ok ds -> fits_c code message ds ->
-  hm_get_all md hdr_grpc_status_details = [] ->
+  hm_get_all md hdr_grpc_status_details = [] \/ something_attached code message ds ->
   exists st m st',
     with_error_details_vec_c code message ds md = Ok st /\ st_md st = md /\
     to_header_map st = Some m /\ from_header_map m = Some st' /\
     forall k, hm_get_all (st_md st') k =
-              if existsb (fun k' => bytes_eqb k' k) reserved_headers then [] else hm_get_all md k.
+              if bytes_eqb k hdr_grpc_status_details || existsb (fun k' => bytes_eqb k' k) reserved_headers
+              then [] else hm_get_all md k.
 Proof. exact metadata_kept. Qed.
-(* ... and the set form is by definition the list form of the details it pushes *)
+(* the set form (ten `if let Some(x) .. push`) attaches the list of the details it holds, in field order *)
 Theorem c20_set_is_vec_of_pushed : forall code message ed md,
   with_error_details_c code message ed md = with_error_details_vec_c code message (pushed ed) md.
 Proof. exact with_error_details_is_vec. Qed.
+
+(* ... and whatever sequence of public builder calls (ErrorDetails::new / with_.., set_.., add_..;
+   error_details/mod.rs) made the set, with well-formed arguments [bop_ok], it is recovered unchanged *)
+Theorem c20_built_set_roundtrip : forall code message ops md,
+  is_code code = true -> utf8_valid message = true -> bytes_ok message = true ->
+  Forall bop_ok ops -> fits_c code message (pushed (ed_build ops)) ->
+  hm_get_all md hdr_grpc_status_details = [] \/ something_attached code message (pushed (ed_build ops)) ->
+  exists st m st',
+    with_error_details_c code message (ed_build ops) md = Ok st /\
+    to_header_map st = Some m /\ from_header_map m = Some st' /\
+    check_error_details_c st' = Ok (ed_build ops) /\ get_error_details_c st' = Ok (ed_build ops).
+Proof. exact built_roundtrip. Qed.
+
+(* Observation, outside the property's quantifier: nothing at all attached (code OK, no message, no
+   details: the details bytes are empty) and a grpc-status-details-bin entry of the caller's own in
+   the metadata - the first value of that entry is what the status read back has as details *)
+Theorem c20_own_details_entry_travels : forall md v rest,
+  hm_get_all md hdr_grpc_status_details = v :: rest ->
+  exists st m st',
+    with_error_details_vec_c 0 [] [] md = Ok st /\ st_details st = [] /\
+    to_header_map st = Some m /\ from_header_map m = Some st' /\
+    match Base64.dec v with
+    | Some d => st_code st' = 0 /\ st_msg st' = [] /\ st_details st' = d
+    | None => st_code st' = Code_Unknown /\ st_details st' = []
+    end.
+Proof. exact own_details_entry_travels. Qed.
 
 (* ---- decode side: arbitrary bytes as details ------------------------------------------------ *)
 (* for EVERY status (any details bytes whatsoever): no getter panics; check_* say Ok or Err; get_*
@@ -136,6 +171,32 @@ Proof. exact parse_ser. Qed.
 Theorem c20_wire_parse_total : forall c lenient buf, good (parse c lenient buf).
 Proof. exact parse_good. Qed.
 
+(* prost-derive's Message, for EVERY table of (name, tag, kind) with distinct tags in 1 .. 2^29-1 (what
+   prost-derive insists on at compile time): what `encode` writes for a value of the table, `decode`
+   reads back as that value; `decode` of arbitrary bytes is Ok or Err; what it returns has the types
+   of the table *)
+Theorem c20_message_roundtrip_any_table : forall s vs,
+  schema_ok s -> vals_ok s vs -> nlen (enc_g s vs) < U64 -> dec_g s (enc_g s vs) = Ok vs.
+Proof. exact dec_enc_g. Qed.
+Theorem c20_message_decode_total_any_table : forall s b, good (dec_g s b).
+Proof. exact dec_g_good. Qed.
+Theorem c20_message_decode_typed_any_table : forall s b vs, dec_g s b = Ok vs -> vals_typed s vs.
+Proof. exact dec_g_typed. Qed.
+(* the tables regenerated from google_rpc.rs / prost-types are such tables, and the codec of the
+   model is [enc_g] / [dec_g] of them: for Status, and for each of the ten detail messages *)
+Theorem c20_regenerated_tables_ok :
+  forallb (fun t => schema_okb (schema_of t) && nested_ok t) all_tables = true.
+Proof. exact tables_ok. Qed.
+Theorem c20_codecs_are_the_tables :
+  S_Status = schema_of fields_Status /\ (forall k, S_of k = schema_of
+    match k with
+    | KRetryInfo => fields_RetryInfo | KDebugInfo => fields_DebugInfo | KQuotaFailure => fields_QuotaFailure
+    | KErrorInfo => fields_ErrorInfo | KPreconditionFailure => fields_PreconditionFailure | KBadRequest => fields_BadRequest
+    | KRequestInfo => fields_RequestInfo | KResourceInfo => fields_ResourceInfo | KHelp => fields_Help
+    | KLocalizedMessage => fields_LocalizedMessage
+    end).
+Proof. exact schemas_are_the_tables. Qed.
+
 (* the hypotheses layer A makes about the codecs, discharged *)
 Theorem c20_payload_roundtrip : forall d, detail_ok d ->
   exists b, enc_detail_c d = Ok b /\ bytes_ok b = true /\ (nlen b < U64 -> dec_detail_c (kind_of d) b = Ok d).
@@ -150,9 +211,10 @@ Proof. exact status_rt_c. Qed.
 Theorem c20_protobuf_range : forall d, d_secs d <= 315576000000 -> d_nanos d < 1000000000 -> dur_ok d.
 Proof. exact protobuf_range_dur_ok. Qed.
 
-(* how RetryInfo::new clamps: up to MAX_RETRY_DELAY unchanged, above it MAX_RETRY_DELAY *)
-Theorem c20_retry_info_new : forall d,
-  retry_info_new (Some d) = mkRetryInfo (Some (if dur_gtb d MAX_RETRY_DELAY then MAX_RETRY_DELAY else d)).
+(* how RetryInfo::new clamps: the delay it stores is min(given, MAX_RETRY_DELAY) *)
+Theorem c20_retry_info_new : forall d, d_nanos d < 1000000000 ->
+  exists d', ri_retry_delay (retry_info_new (Some d)) = Some d' /\ d_nanos d' < 1000000000 /\
+             dur_total d' = N.min (dur_total d) (dur_total MAX_RETRY_DELAY).
 Proof. exact retry_info_new_spec. Qed.
 Theorem c20_retry_info_new_keeps_range : forall d, d_secs d <= 315576000000 -> d_nanos d < 1000000000 ->
   retry_info_new (Some d) = mkRetryInfo (Some d).
@@ -165,6 +227,12 @@ Proof. exact retry_info_new_ok. Qed.
 Theorem c20_retry_delay_fallback : forall d, U63 <= d_secs d ->
   pb_retry_delay d = Ok (mkPbDur (Z.of_N fallback_delay_secs) (Z.of_N fallback_delay_nanos)).
 Proof. exact pb_retry_delay_fallback. Qed.
+(* ... and read back as that maximum (the one kind of RetryInfo value that does not round-trip; it is
+   outside the protobuf range the property speaks of) *)
+Theorem c20_retry_literal_beyond_i64 : forall d, U63 <= d_secs d ->
+  exists b, enc_detail_c (DRetryInfo (mkRetryInfo (Some d))) = Ok b /\
+            dec_detail_c KRetryInfo b = Ok (DRetryInfo (mkRetryInfo (Some (mkDur fallback_delay_secs fallback_delay_nanos)))).
+Proof. exact retry_literal_beyond_i64. Qed.
 
 (* ---- non-vacuity --------------------------------------------------------------------------- *)
 Definition ex_ed : error_details :=
@@ -182,9 +250,9 @@ Definition ex_ed : error_details :=
 Example c20_set_premises_hold :
   is_code 3 = true /\ utf8_valid [109; 195; 169] = true /\ bytes_ok [109; 195; 169] = true /\
   ed_ok ex_ed /\ fits_c 3 [109; 195; 169] (pushed ex_ed) /\
-  hm_get_all [([120; 45; 97], [118])] hdr_grpc_status_details = [].
+  something_attached 3 [109; 195; 169] (pushed ex_ed).
 Proof.
-  split; [reflexivity|]. split; [reflexivity|]. split; [reflexivity|]. split; [|split; [|reflexivity]].
+  split; [reflexivity|]. split; [reflexivity|]. split; [reflexivity|]. split; [|split; [|left; discriminate]].
   - unfold ed_ok. cbn [pushed ex_ed opt_list app ed_retry_info ed_debug_info ed_quota_failure ed_error_info
       ed_precondition_failure ed_bad_request ed_request_info ed_resource_info ed_help ed_localized_message].
     repeat constructor; try reflexivity; cbn; try (intuition discriminate); try lia.
@@ -218,44 +286,45 @@ Print Assumptions c20_embedded_status_matches_outer.
 Print Assumptions c20_metadata_kept.
 Print Assumptions c20_decode_total.
 Print Assumptions c20_wire_roundtrip.
+Print Assumptions c20_message_roundtrip_any_table.
+Print Assumptions c20_own_details_entry_travels.
 Print Assumptions c20_payload_roundtrip.
 
 (* the shapes of the source the model was written against, regenerated by rs2v on every run:
    variant order of ErrorDetail, push order of with_error_details_and_metadata, the arms of
-   check_error_details[_vec] and the getters, field tags and kinds of every prost message,
-   the RetryInfo constants *)
+   check_error_details[_vec] and the getters, the fields (name, kind) of every prost message - their
+   TAGS are not pinned, the codec and its theorems are generic in them -, the RetryInfo constants *)
 From Coq Require Import String.
+Open Scope string_scope.
 Theorem c20_source_as_modelled :
   error_detail_variants = ["RetryInfo"; "DebugInfo"; "QuotaFailure"; "ErrorInfo"; "PreconditionFailure"; "BadRequest";
-                           "RequestInfo"; "ResourceInfo"; "Help"; "LocalizedMessage"]%string /\
+                           "RequestInfo"; "ResourceInfo"; "Help"; "LocalizedMessage"] /\
   push_order = ["retry_info"; "debug_info"; "quota_failure"; "error_info"; "precondition_failure"; "bad_request";
-                "request_info"; "resource_info"; "help"; "localized_message"]%string /\
+                "request_info"; "resource_info"; "help"; "localized_message"] /\
   vec_push_variants = error_detail_variants /\
   check_vec_arms = error_detail_variants /\
   map fst check_set_arms = error_detail_variants /\ map snd check_set_arms = push_order /\
   map snd getter_types = error_detail_variants /\ map fst getter_types = push_order /\
-  google_rpc_message_count = 15 /\
-  fields_Status = [("code", tag_Status_code, P_int32); ("message", tag_Status_message, P_string);
-                   ("details", tag_Status_details, P_msg_rep "prost_types::Any")]%string /\
-  fields_Any = [("type_url", tag_Any_type_url, P_string); ("value", tag_Any_value, P_bytes)]%string /\
-  fields_Duration = [("seconds", tag_Duration_seconds, P_int64); ("nanos", tag_Duration_nanos, P_int32)]%string /\
-  fields_RetryInfo = [("retry_delay", tag_RetryInfo_retry_delay, P_msg_opt "prost_types::Duration")]%string /\
-  fields_DebugInfo = [("stack_entries", tag_DebugInfo_stack_entries, P_string_rep); ("detail", tag_DebugInfo_detail, P_string)]%string /\
-  fields_QuotaFailure = [("violations", tag_QuotaFailure_violations, P_msg_rep "quota_failure::Violation")]%string /\
-  map snd fields_quota_failure_Violation = [P_string; P_string] /\ map (fun x => snd (fst x)) fields_quota_failure_Violation = QV_TAGS /\
-  fields_ErrorInfo = [("reason", tag_ErrorInfo_reason, P_string); ("domain", tag_ErrorInfo_domain, P_string);
-                      ("metadata", tag_ErrorInfo_metadata, P_map_string_string)]%string /\
-  fields_PreconditionFailure = [("violations", tag_PreconditionFailure_violations, P_msg_rep "precondition_failure::Violation")]%string /\
-  map snd fields_precondition_failure_Violation = [P_string; P_string; P_string] /\
-  map (fun x => snd (fst x)) fields_precondition_failure_Violation = PV_TAGS /\
-  fields_BadRequest = [("field_violations", tag_BadRequest_field_violations, P_msg_rep "bad_request::FieldViolation")]%string /\
-  map snd fields_bad_request_FieldViolation = [P_string; P_string] /\ map (fun x => snd (fst x)) fields_bad_request_FieldViolation = FV_TAGS /\
-  map snd fields_RequestInfo = [P_string; P_string] /\ map (fun x => snd (fst x)) fields_RequestInfo = RQ_TAGS /\
-  map snd fields_ResourceInfo = [P_string; P_string; P_string; P_string] /\ map (fun x => snd (fst x)) fields_ResourceInfo = RS_TAGS /\
-  fields_Help = [("links", tag_Help_links, P_msg_rep "help::Link")]%string /\
-  map snd fields_help_Link = [P_string; P_string] /\ map (fun x => snd (fst x)) fields_help_Link = HL_TAGS /\
-  map snd fields_LocalizedMessage = [P_string; P_string] /\ map (fun x => snd (fst x)) fields_LocalizedMessage = LM_TAGS /\
-  (max_retry_delay_secs, max_retry_delay_nanos) = (315576000000, 999999999) /\
-  (fallback_delay_secs, fallback_delay_nanos) = (315576000000, 999999999).
+  google_rpc_message_count = 15%N /\
+  shape fields_Status = [("code", P_int32); ("message", P_string); ("details", P_msg_rep "prost_types::Any")] /\
+  shape fields_Any = [("type_url", P_string); ("value", P_bytes)] /\
+  shape fields_Duration = [("seconds", P_int64); ("nanos", P_int32)] /\
+  shape fields_RetryInfo = [("retry_delay", P_msg_opt "prost_types::Duration")] /\
+  shape fields_DebugInfo = [("stack_entries", P_string_rep); ("detail", P_string)] /\
+  shape fields_QuotaFailure = [("violations", P_msg_rep "quota_failure::Violation")] /\
+  shape fields_quota_failure_Violation = [("subject", P_string); ("description", P_string)] /\
+  shape fields_ErrorInfo = [("reason", P_string); ("domain", P_string); ("metadata", P_map_string_string)] /\
+  shape fields_PreconditionFailure = [("violations", P_msg_rep "precondition_failure::Violation")] /\
+  shape fields_precondition_failure_Violation = [("type", P_string); ("subject", P_string); ("description", P_string)] /\
+  shape fields_BadRequest = [("field_violations", P_msg_rep "bad_request::FieldViolation")] /\
+  shape fields_bad_request_FieldViolation = [("field", P_string); ("description", P_string)] /\
+  shape fields_RequestInfo = [("request_id", P_string); ("serving_data", P_string)] /\
+  shape fields_ResourceInfo = [("resource_type", P_string); ("resource_name", P_string); ("owner", P_string);
+                               ("description", P_string)] /\
+  shape fields_Help = [("links", P_msg_rep "help::Link")] /\
+  shape fields_help_Link = [("description", P_string); ("url", P_string)] /\
+  shape fields_LocalizedMessage = [("locale", P_string); ("message", P_string)] /\
+  (max_retry_delay_secs, max_retry_delay_nanos) = (315576000000, 999999999)%N /\
+  (fallback_delay_secs, fallback_delay_nanos) = (315576000000, 999999999)%N.
 Proof. exact source_as_modelled. Qed.
 Print Assumptions c20_source_as_modelled.
